@@ -252,17 +252,20 @@ def oracle_login(f, ctxv):
         return
     r = f.rets().get(u)
     cancelled = any(it[0] == 'cancel' and it[1] == u for it in f.script)
-    answered = any(it[0] in ('data', 'eof') for it in f.script)
     if r is None:
-        if answered and any(it[0] == 'eof' or (it[0] == 'data' and it[1]) for it in f.script):
+        # a heartbeat is not an answer: the attempt may legitimately still be waiting
+        if any(it[0] == 'eof' or (it[0] == 'data' and any(t != 'hb' for t in it[1])) for it in f.script):
             ctxv('the peer answered / disconnected but the login attempt never returned')
         return
     if r not in ('ok', 'refused') and not (cancelled and r == 'cancelled'):
         ctxv(f'login attempt ended with {r!r} (expected success, a connection-refused error, or the caller\'s own cancellation)')
         return
-    writes = [o for o in f.obs if isinstance(o, list) and o[0] == 'w']
-    if writes and writes[0] != ['w', 'login']:
-        ctxv(f'first bytes written were {writes[0][1]}, not the login request')
+    # the attempt's own first bytes: the step in which login() starts must begin by writing the login request
+    for ev, obs in res['log']:
+        if ev == ['login', u]:
+            if not obs or obs[0] != ['w', 'login']:
+                ctxv(f'login() started with {obs[:1]} instead of writing the login request first')
+            break
     k_ret = [k for k, o in enumerate(f.obs) if o == ['ret', u, r]][0]
     if r == 'ok':
         early = [o for o in f.obs[:k_ret] if isinstance(o, list) and o[0] == 'msgEnter']
